@@ -26,6 +26,9 @@ R = [
  ("r20_serve_inline_size", "src/block_handler/mod.rs", [("            .chunks(request_block_size)\n", "            .chunks(request_block2.size())\n")]),
  ("r21_serve_more_binding", "src/block_handler/mod.rs", [("        let has_more_chunks = chunks.next().is_some();", "        let following = chunks.next();\n        let has_more_chunks = following.is_some();")]),
  ("r22_negotiate_named_reserve", "src/block_handler/mod.rs", [("        let max_non_payload_size =\n            (message_size + BLOCK_OPTIONS_MAX_LENGTH) - total_payload_size;", "        let framing = message_size - total_payload_size;\n        let max_non_payload_size = framing + BLOCK_OPTIONS_MAX_LENGTH;")]),
+ ("r23_observe_set_options", "src/packet.rs", [("        self.clear_option(CoapOption::Observe);\n        self.add_option_as(CoapOption::Observe, OptionValueU32(value));", "        self.set_options_as(\n            CoapOption::Observe,\n            LinkedList::from([OptionValueU32(value)]),\n        );")]),
+ ("r24_apply_error_match", "src/request.rs", [("        if let Some(reply) = &mut self.response {\n            if let Some(code) = error.code {", "        if let (Some(reply), Some(code)) = (&mut self.response, error.code) {\n            {")]),
+ ("r25_unquote_to_cow_let", "src/link_format.rs", [("            if str_ref.find('\\\\').is_some() {\n                Cow::from(self.to_string())", "            let has_escape = str_ref.find('\\\\').is_some();\n            if has_escape {\n                Cow::from(self.to_string())")]),
  ("r15_block_value_u64_shift", "src/block_handler/block_value.rs", [("        let more = scalar >> 3 & 0x1 == 0x1;", "        let more = (scalar & 0x8) != 0;")]),
 ]
 os.makedirs(OUT, exist_ok=True)
